@@ -45,6 +45,7 @@ const (
 	AddrVoid        // void
 	AddrFnd         // foundation key (key 3) v1 standard address
 	AddrFndV2       // foundation key (key 3) v2 pk address
+	AddrNoSig       // v1 unlock conditions requiring ZERO signatures (spendable by anyone, v1 or v2 legacy policy)
 	numAddr
 )
 
@@ -67,6 +68,8 @@ func (k *Keys) Addr(class int) types.Address {
 		return types.StandardUnlockHash(k.Pub[3])
 	case AddrFndV2:
 		return types.StandardAddress(k.Pub[3])
+	case AddrNoSig:
+		return types.UnlockConditions{}.UnlockHash()
 	}
 	panic("bad address class")
 }
